@@ -115,6 +115,9 @@ def main(argv):
         return 2
 
     groups = mod.plan(tier)
+    only = os.environ.get("VERIF_GROUPS")       # debugging aid: run a subset of the worker groups
+    if only:
+        groups = [g for g in groups if g.get("name", g["variant"]) in only.split(",")]
     if replay:
         groups = [g for g in groups if g.get("name", g["variant"]) == replay["group"]] or groups[:1]
         for g in groups:
